@@ -21,6 +21,20 @@ var descs = []string{
 
 var propNames = []string{`"p"`, `"q"`, `"length"`, `"0"`, `"1"`, `"prototype"`, `"constructor"`, `"caller"`, `"stack"`, `"message"`, `"lastIndex"`, `"get"`, `"set"`, `"value"`, `"callee"`}
 
+// seqArg: an argument for a sequence step.  The two array-length-sized numbers are left out here:
+// `new Array(2147483648)` followed by any join/toString of it (the observation phase stringifies every
+// pool value) makes builtinArrayJoin reserve 16 bytes x length = 32 GiB per worker, which is memory
+// exhaustion by design (ES5 demands a 2 GiB string) and only gets the harness killed by the kernel.
+// They stay in the single-call stream, where nothing stringifies the result.
+func seqArg(r *h.Rng) string {
+	for {
+		a := argvs[r.Intn(len(argvs))]
+		if a != "4294967296" && a != "2147483648" {
+			return a
+		}
+	}
+}
+
 func genSeq(r *h.Rng, fns []string, steps int) string {
 	var b strings.Builder
 	b.WriteString(`var v0 = {p: 1, q: [1,2]}, v1 = function(a,b){ return arguments }, v2 = [1,,3], v3 = "str", v4 = /a(b)?/g, v5 = new Date(0), v6 = new Error("e"), v7 = (function(){ return arguments })(1,2), v8 = Object.create(v0), v9 = v1.bind(v0, 1);` + "\n")
@@ -36,7 +50,7 @@ func genSeq(r *h.Rng, fns []string, steps int) string {
 				if r.Chance(70) {
 					args = append(args, v())
 				} else {
-					args = append(args, argvs[r.Intn(len(argvs))])
+					args = append(args, seqArg(r))
 				}
 			}
 			stmt = fmt.Sprintf("%s = (%s).call(%s)", t, fn, strings.Join(args, ", "))
